@@ -496,11 +496,11 @@ func irnIsHistOp(name string) bool {
 // ---- generation ----
 
 type irnGenCand struct {
-	st, av, dom   int
-	addrs         []int
-	attrs         []string
-	lc, lck       int
-	lcf           []int
+	st, av, dom int
+	addrs       []int
+	attrs       []string
+	lc, lck     int
+	lcf         []int
 }
 
 func (g irnGenCand) fields(k int) string {
